@@ -176,18 +176,18 @@ Proof.
   - inversion H; subst. exact (rep_nf rd_inp inp_lt inp_nf _ _ _ (Nat.lt_succ_diag_r _) E1).
 Qed.
 
-Lemma ugen_lt : lt_p rd_ugen.
+Lemma ugen_w_lt : forall ps, lt_p ps -> lt_p (rd_ugen_w ps).
 Proof.
-  apply bind_lt_le; [apply pstr_lt|]. intros cls.
+  intros ps Hps. apply bind_lt_le; [exact Hps|]. intros cls.
   apply bind_le_le; [apply lt_le, i8_lt|]. intros rate.
   apply bind_le_le; [apply lt_le, i32_lt|]. intros ni.
   apply bind_le_le; [apply lt_le, i32_lt|]. intros no.
   apply bind_le_le; [apply lt_le, i16_lt|]. intros sp.
   destruct ((ni <? 0) || (no <? 0)); [apply pfail_le | apply ugen_tail_le].
 Qed.
-Lemma ugen_nf : nf rd_ugen.
+Lemma ugen_w_nf : forall ps, nf ps -> nf (rd_ugen_w ps).
 Proof.
-  apply bind_nf; [apply pstr_nf|]. intros cls.
+  intros ps Hps. apply bind_nf; [exact Hps|]. intros cls.
   apply bind_nf; [apply i8_nf|]. intros rate.
   apply bind_nf; [apply i32_nf|]. intros ni.
   apply bind_nf; [apply i32_nf|]. intros no.
@@ -195,12 +195,12 @@ Proof.
   destruct ((ni <? 0) || (no <? 0)); [apply pfail_nf; discriminate | apply ugen_tail_nf].
 Qed.
 
-Lemma pname_lt : lt_p rd_pname.
+Lemma pname_w_lt : forall ps, lt_p ps -> lt_p (rd_pname_w ps).
 Proof.
-  apply bind_lt_le; [apply pstr_lt|]. intros n. apply bind_le_le; [apply lt_le, i32_lt | intros; apply pret_le].
+  intros ps Hps. apply bind_lt_le; [exact Hps|]. intros n. apply bind_le_le; [apply lt_le, i32_lt | intros; apply pret_le].
 Qed.
-Lemma pname_nf : nf rd_pname.
-Proof. apply bind_nf; [apply pstr_nf|]. intros n. apply bind_nf; [apply i32_nf | intros; apply pret_nf]. Qed.
+Lemma pname_w_nf : forall ps, nf ps -> nf (rd_pname_w ps).
+Proof. intros ps Hps. apply bind_nf; [exact Hps|]. intros n. apply bind_nf; [apply i32_nf | intros; apply pret_nf]. Qed.
 
 Lemma variant_lt : forall n, lt_p (rd_variant n).
 Proof.
@@ -225,15 +225,18 @@ Proof.
     destruct (negb (n =? 1)); [apply pfail_nf; discriminate | apply pret_nf].
 Qed.
 
-Lemma core_nf : nf rd_core.
+Lemma core_w_nf : forall ps, lt_p ps -> nf ps -> nf (rd_core_w ps).
 Proof.
-  apply bind_nf; [apply pstr_nf|]. intros name.
+  intros ps Hlt Hnf.
+  apply bind_nf; [exact Hnf|]. intros name.
   apply bind_nf; [apply counted_nf; [apply i32_nf | apply w32_lt | apply w32_nf]|]. intros consts.
   apply bind_nf; [apply counted_nf; [apply i32_nf | apply w32_lt | apply w32_nf]|]. intros ctl.
-  apply bind_nf; [apply counted_nf; [apply i32_nf | apply pname_lt | apply pname_nf]|]. intros names.
-  apply bind_nf; [apply counted_nf; [apply i32_nf | apply ugen_lt | apply ugen_nf]|]. intros units.
+  apply bind_nf; [apply counted_nf; [apply i32_nf | apply pname_w_lt; exact Hlt | apply pname_w_nf; exact Hnf]|]. intros names.
+  apply bind_nf; [apply counted_nf; [apply i32_nf | apply ugen_w_lt; exact Hlt | apply ugen_w_nf; exact Hnf]|]. intros units.
   apply pret_nf.
 Qed.
+Lemma core_nf : nf rd_core.
+Proof. exact (core_w_nf rd_pstr pstr_lt pstr_nf). Qed.
 
 Lemma body_nf : nf rd_body.
 Proof.
